@@ -48,6 +48,14 @@ partial def hmLoop (h : IO.FS.Stream) (m : HM String Nat) : IO UInt32 := do
     | .ok (some v) => IO.println s!"get {v}"; hmLoop h m
     | .ok none => IO.println "get NULL"; hmLoop h m
     | .error c => IO.println (showCrash c); return 0
+  | ["rehash"] =>
+    -- `rehash(map)` called directly (the harness reaches the static function): any state, not only
+    -- the ones in which the load test of get_or_insert_entry fires.  Not offered on the
+    -- zero-initialised map (the C code would divide by a zero capacity).
+    if m.buckets.isEmpty then do IO.println "bad-op"; hmLoop h m
+    else match HM.rehash hmHash m with
+      | .ok m' => IO.println s!"rehash {showState m'}"; hmLoop h m'
+      | .error c => IO.println (showCrash c); return 0
   | ["reset"] => IO.println "reset"; hmLoop h HM.empty
   | _ => IO.println "bad-op"; hmLoop h m
 
